@@ -3,9 +3,96 @@ From Coq Require Import List NArith ZArith Bool Permutation.
 Import ListNotations.
 From Verif Require Import Base.Val C18.Fs C28.Model_C28 C28.Spec_C28 C28.Proofs_C28.
 
+(* a generated Manifest parses back (parse_manifest) to exactly the covered files and distfiles with
+   their sizes and checksums; well-formed inputs never fail *)
+Theorem parse_render : forall thin scan fetch,
+  wf_update thin scan fetch = true ->
+  match update_text thin scan fetch with
+  | Ok (Some t) => parse_text t = Some (expected_pm thin scan fetch)
+  | Ok None => thin = true /\ fetch = []
+  | Fail _ => False
+  end.
+Proof. exact parse_render_proof. Qed.
+Print Assumptions parse_render.
+
+(* ... where the expected content of a class is the covered entries themselves (as a multiset), each
+   with its size and its other checksums and nothing else *)
+Theorem canon_sec_exact : forall l,
+  Permutation (canon_sec l) (map (fun e => (fst e, canon_chks (snd e))) l).
+Proof. exact canon_sec_exact_proof. Qed.
+Print Assumptions canon_sec_exact.
+Theorem canon_chks_exact : forall ck,
+  Permutation (canon_chks ck)
+              ((SIZE, Z.of_N (size_of ck)) :: map (fun e => (fst e, Z.of_N (snd e))) (filter not_size ck)).
+Proof. exact canon_chks_exact_proof. Qed.
+Print Assumptions canon_chks_exact.
+
+(* the text does not depend on the directory listing order nor on the order of the distfiles *)
+Theorem order_independent : forall thin scan scan' fetch fetch',
+  Permutation scan scan' -> NoDup (map s_loc scan) ->
+  Permutation fetch fetch' -> NoDup (map fst fetch) ->
+  update_text thin scan fetch = update_text thin scan' fetch'.
+Proof. exact order_independent_proof. Qed.
+Print Assumptions order_independent.
+
+(* regenerating an up-to-date Manifest writes nothing *)
 Theorem up_to_date_no_ops : forall i s old t,
   update_text (u_thin i) (u_scan i) (u_fetch i) = Ok (Some t) ->
   file_data s P = Some old -> read_nl old = t ->
   update_ops i s = Ok (false, []).
 Proof. exact up_to_date_no_ops_proof. Qed.
 Print Assumptions up_to_date_no_ops.
+
+(* ... in particular right after a completed update (text without carriage returns) *)
+Theorem idempotent : forall i s wr ops s',
+  tmp_private s ->
+  update_ops i s = Ok (wr, ops) -> run_opt ops s = Some s' ->
+  (forall text, update_text (u_thin i) (u_scan i) (u_fetch i) = Ok (Some text) -> ~ In 13%N text) ->
+  update_ops i s' = Ok (false, []).
+Proof. exact idempotent_proof. Qed.
+Print Assumptions idempotent.
+
+(* ... for every well-formed input *)
+Theorem idempotent_wf : forall i s wr ops s',
+  tmp_private s -> wf_update (u_thin i) (u_scan i) (u_fetch i) = true ->
+  update_ops i s = Ok (wr, ops) -> run_opt ops s = Some s' ->
+  update_ops i s' = Ok (false, []).
+Proof. exact idempotent_wf_proof. Qed.
+Print Assumptions idempotent_wf.
+
+(* interrupted at ANY call k, the Manifest node is the old one or a file holding the complete new
+   text (and then every call was issued); nothing but the Manifest and its temporary changes *)
+Theorem update_atomic : forall i s wr ops k,
+  tmp_private s ->
+  update_ops i s = Ok (wr, ops) ->
+  let sk := run (firstn k ops) s in
+  (forall q, q <> P -> q <> TMP -> lookup sk q = lookup s q) /\
+  (lookup sk P = lookup s P \/
+   exists text, update_text (u_thin i) (u_scan i) (u_fetch i) = Ok (Some text) /\
+                file_data sk P = Some text /\ (length ops <= k)%nat).
+Proof. exact update_atomic_proof. Qed.
+Print Assumptions update_atomic.
+
+(* an OSError at any call leaves the old Manifest *)
+Theorem update_eio_keeps_old : forall i s wr ops k,
+  tmp_private s -> update_ops i s = Ok (wr, ops) -> (k < length ops)%nat ->
+  lookup (run (eio_ops ops k) s) P = lookup s P.
+Proof. exact update_eio_keeps_old_proof. Qed.
+Print Assumptions update_eio_keeps_old.
+
+(* an update whose calls all succeed leaves the new text *)
+Theorem update_completes : forall i s ops s',
+  tmp_private s -> update_ops i s = Ok (true, ops) -> run_opt ops s = Some s' ->
+  exists text, update_text (u_thin i) (u_scan i) (u_fetch i) = Ok (Some text) /\ file_data s' P = Some text.
+Proof. exact update_completes_proof. Qed.
+Print Assumptions update_completes.
+
+(* the write of the unrepaired code (open(path, "w")) is not atomic *)
+Theorem inplace_not_atomic_refuted :
+  exists i s wr ops k text,
+    tmp_private s /\ update_ops_inplace i s = Ok (wr, ops) /\
+    update_text (u_thin i) (u_scan i) (u_fetch i) = Ok (Some text) /\
+    lookup (run (firstn k ops) s) P <> lookup s P /\
+    file_data (run (firstn k ops) s) P <> Some text.
+Proof. exact inplace_not_atomic_refuted_proof. Qed.
+Print Assumptions inplace_not_atomic_refuted.
